@@ -99,6 +99,10 @@ def run(C, R):
         for name, requested in (('try_receive', ('param', 'state_id')),
                                 ('receive_or_register', ('init', (('P', 'wait_node'), 'data', 'state_id')))):
             fn = F.one_fn(impl_adt=STATE, name=name)
+            if name == 'receive_or_register':
+                from common import own_node_roots as _onr
+                _own = (list(_onr(F, fn)) or [(('P', 'wait_node'),)])[0]
+                requested = ('init', _own + ('data', 'state_id'))
             paths = E.run(fn['path'])
             R.add_paths(fn['path'], len(paths))
             for path in paths:
